@@ -394,8 +394,12 @@ theorem sim (t : Tree) : ∀ (x : Ctx) (s : ISt) (S : St), safe t = true → R s
     intro x s S _ hR _
     simp only [im, sp]
     split
-    · refine ⟨_, rfl, ⟨hR.1, ?_, hR.2.2⟩, rfl, List.prefix_append _ _, id⟩
-      simp only [hR.2.1]
+    · have hl : s.ev.length = S.ev.length := by rw [hR.2.1]
+      rw [hl]
+      split
+      · refine ⟨_, rfl, ⟨hR.1, ?_, hR.2.2⟩, rfl, List.prefix_append _ _, id⟩
+        simp only [hR.2.1]
+      · exact Or.inl ⟨S, rfl⟩
     · exact Or.inl ⟨S, rfl⟩
   | ifp k body ih =>
     intro x s S hs hR hp
@@ -642,6 +646,11 @@ theorem sim (t : Tree) : ∀ (x : Ctx) (s : ISt) (S : St), safe t = true → R s
           · simp only [hR0.2.1]
         have hp1 : s.ev <+: s0.ev ++ out.evs := by rw [hev0]; exact List.prefix_append _ _
         simp only [imPhase, spPhase]
+        have hlen : (s0.ev ++ out.evs).length = (S.ev ++ out.evs).length := by rw [hR0.2.1]
+        rw [hlen]
+        by_cases hlim : maxNotifications < (S.ev ++ out.evs).length
+        · simp only [hlim, if_true]; exact Or.inl ⟨_, rfl⟩
+        simp only [hlim, if_false]
         cases hcb : out.cb with
         | none =>
           simp only
